@@ -35,6 +35,25 @@ def field_count_gate(repo, chk, oid):
         return None
     row = st.targets[0].id
     header = fn.params[1]
+    # the parsed row must reach the gate and the buffer exactly as the parser returned it
+    from ..match import MUTATORS
+    touch = []
+    for n in ast.walk(loop):
+        if n is st:
+            continue
+        if isinstance(n, (ast.Assign, ast.AugAssign, ast.AnnAssign)):
+            tgs = n.targets if isinstance(n, ast.Assign) else [n.target]
+            for t in tgs:
+                base = t
+                while isinstance(base, (ast.Subscript, ast.Attribute)):
+                    base = base.value
+                if isinstance(base, ast.Name) and base.id == row:
+                    touch.append(n)
+        if isinstance(n, ast.Call) and isinstance(n.func, ast.Attribute) and isinstance(n.func.value, ast.Name) and n.func.value.id == row and n.func.attr in MUTATORS:
+            touch.append(n)
+    chk.expect(not touch, oid + 'r', 'origin', fn.site(touch[0]) if touch else fn.site(st), ast.unparse(touch[0])[:120] if touch else f'{row} = generic_line_parser(...)',
+               'the row is used exactly as the parser returned it (no padding, truncation or re-binding before the field-count test)',
+               'the parsed row is modified (padded / truncated / re-bound) between the parser and the field-count test: a line with the wrong number of fields is accepted with shifted columns instead of being rejected as a whole')
     appends = [c for c in ast.walk(loop) if isinstance(c, ast.Call) and isinstance(c.func, ast.Attribute) and c.func.attr in ('append', 'extend', 'insert', 'appendleft')
                and any(isinstance(a, ast.Name) and a.id == row for a in c.args)]
     if not appends:
@@ -63,3 +82,195 @@ def field_count_gate(repo, chk, oid):
         chk.expect(ok, oid, 'R3', fn.site(ap), ast.unparse(ap), 'row enters the batch only under len(row) == len(header)',
                    f'a parsed row must be appended only when len(row) == len(column_descriptions); guards found: {relevant or "none"} - a row with the wrong field count would be shifted into other columns')
     return buffers
+
+
+# ---------------------------------------------------------------------------
+# pair enumeration of get_combinations_from_columns (shared by C06 and C07)
+# ---------------------------------------------------------------------------
+
+class Contribution:
+    def __init__(self, kind, colset=None, r=None, flt=None, text='', node=None):
+        self.kind, self.colset, self.r, self.flt, self.text, self.node = kind, colset, r, flt, text, node
+
+    def __repr__(self):
+        parts = [self.kind]
+        if self.colset is not None:
+            parts.append(f'over {self.colset}')
+        if self.r is not None:
+            parts.append(f'r={self.r}')
+        if self.flt:
+            parts.append(f'filter {self.flt}')
+        return ' '.join(parts)
+
+
+class EnumAnalysis:
+    """Symbolic walk of the enumeration function: per path, the list of contributions to the returned list."""
+
+    def __init__(self, repo, fn):
+        self.repo, self.fn, self.m = repo, fn, fn.module
+        self.cols = fn.params[0]
+        self.args = fn.params[1]
+        self.paths = []     # (conds, contributions, return node)
+        self.problems = []
+        self._walk(fn.node.body, {}, [], )
+
+    # ---- column sets -------------------------------------------------------
+    def colset(self, e, env):
+        if isinstance(e, ast.Name):
+            if e.id == self.cols:
+                return 'ALL'
+            if e.id in env and env[e.id][0] == 'set':
+                return env[e.id][1]
+            return None
+        if isinstance(e, ast.Call) and isinstance(e.func, ast.Name) and e.func.id in ('sorted', 'list', 'tuple') and len(e.args) == 1:
+            return self.colset(e.args[0], env)
+        if isinstance(e, ast.BinOp) and isinstance(e.op, ast.Sub):
+            l, r = self._unset(e.left, env), self._unset(e.right, env)
+            if l == 'ALL' and r == 'REL':
+                return 'NONREL'
+            return None
+        if isinstance(e, ast.ListComp) and len(e.generators) == 1 and isinstance(e.elt, ast.Name) and isinstance(e.generators[0].target, ast.Name) and e.elt.id == e.generators[0].target.id:
+            g = e.generators[0]
+            base = self.colset(g.iter, env)
+            if base == 'ALL' and len(g.ifs) == 1:
+                t = g.ifs[0]
+                if isinstance(t, ast.Compare) and len(t.ops) == 1 and isinstance(t.left, ast.Constant) and t.left.value == ' AND_REL ' and isinstance(t.comparators[0], ast.Name) and t.comparators[0].id == g.target.id:
+                    return 'REL' if isinstance(t.ops[0], ast.In) else ('NONREL' if isinstance(t.ops[0], ast.NotIn) else None)
+            if base is not None and not g.ifs:
+                return base
+        return None
+
+    def _unset(self, e, env):
+        if isinstance(e, ast.Call) and isinstance(e.func, ast.Name) and e.func.id == 'set' and len(e.args) == 1:
+            return self.colset(e.args[0], env)
+        return self.colset(e, env)
+
+    # ---- contributions -----------------------------------------------------
+    def _is_label(self, e):
+        return isinstance(e, ast.Attribute) and e.attr == 'label_column' and isinstance(e.value, ast.Name) and e.value.id == self.args
+
+    def contributions(self, e, env):
+        """classify a list-valued expression"""
+        if isinstance(e, ast.Name) and e.id in env:
+            k = env[e.id]
+            if k[0] == 'list':
+                return list(k[1])
+            if k[0] == 'iter':
+                return [k[1]]
+        if isinstance(e, ast.Call) and isinstance(e.func, ast.Name) and e.func.id in ('list', 'tuple') and len(e.args) == 1:
+            return self.contributions(e.args[0], env)
+        if isinstance(e, ast.BinOp) and isinstance(e.op, ast.Add):
+            return self.contributions(e.left, env) + self.contributions(e.right, env)
+        if isinstance(e, (ast.List, ast.Tuple)) and not e.elts:
+            return []
+        if isinstance(e, ast.Call):
+            d = self.m.dotted(e.func)
+            if d in ('itertools.combinations_with_replacement', 'itertools.combinations', 'itertools.product', 'itertools.permutations') and e.args:
+                cs = self.colset(e.args[0], env)
+                r = None
+                if len(e.args) > 1:
+                    try:
+                        from ..model import const_value
+                        r = const_value(e.args[1])
+                    except ValueError:
+                        r = ast.unparse(e.args[1])
+                for k in e.keywords:
+                    if k.arg in ('r', 'repeat'):
+                        r = ast.unparse(k.value)
+                kind = {'itertools.combinations_with_replacement': 'cwr', 'itertools.combinations': 'comb', 'itertools.product': 'product', 'itertools.permutations': 'perm'}[d]
+                return [Contribution(kind, cs or f'?{ast.unparse(e.args[0])}', r, None, ast.unparse(e), e)]
+        if isinstance(e, ast.ListComp) and len(e.generators) == 1:
+            g = e.generators[0]
+            # filter of an enumerator: [x for x in ENUM if <label in x>]
+            if isinstance(e.elt, ast.Name) and isinstance(g.target, ast.Name) and e.elt.id == g.target.id:
+                inner = self.contributions(g.iter, env)
+                if len(inner) == 1 and inner[0].kind != 'unknown':
+                    flt = None
+                    if g.ifs:
+                        if len(g.ifs) == 1 and self._is_label_in(g.ifs[0], g.target.id):
+                            flt = 'label-in-pair'
+                        else:
+                            flt = 'other:' + ' and '.join(ast.unparse(i) for i in g.ifs)
+                    c = inner[0]
+                    return [Contribution(c.kind, c.colset, c.r, flt, ast.unparse(e), e)]
+            # pairs built from a column loop
+            if isinstance(e.elt, ast.Tuple) and len(e.elt.elts) == 2 and isinstance(g.target, ast.Name):
+                a, b = e.elt.elts
+                cs = self.colset(g.iter, env) or f'?{ast.unparse(g.iter)}'
+                v = g.target.id
+                flt = ' and '.join(ast.unparse(i) for i in g.ifs) or None
+                if isinstance(a, ast.Name) and a.id == v and isinstance(b, ast.Name) and b.id == v:
+                    return [Contribution('diag', cs, 2, flt, ast.unparse(e), e)]
+                if isinstance(a, ast.Name) and a.id == v and self._is_label(b):
+                    return [Contribution('with-label', cs, 2, flt, ast.unparse(e), e)]
+                if isinstance(b, ast.Name) and b.id == v and self._is_label(a):
+                    return [Contribution('label-with', cs, 2, flt, ast.unparse(e), e)]
+        return [Contribution('unknown', None, None, None, ast.unparse(e)[:120], e)]
+
+    def _is_label_in(self, t, var):
+        return (isinstance(t, ast.Compare) and len(t.ops) == 1 and isinstance(t.ops[0], ast.In) and self._is_label(t.left)
+                and isinstance(t.comparators[0], ast.Name) and t.comparators[0].id == var)
+
+    # ---- walker ------------------------------------------------------------
+    def _walk(self, body, env, conds):
+        env = dict(env)
+        for i, s in enumerate(body):
+            if isinstance(s, ast.Expr) and isinstance(s.value, ast.Constant):
+                continue
+            if isinstance(s, ast.If):
+                rest = body[i + 1:]
+                for pol, blk in ((True, s.body), (False, s.orelse)):
+                    self._walk(list(blk) + list(rest), env, conds + [(s.test, pol)])
+                return
+            if isinstance(s, ast.Return):
+                cs = self.contributions(s.value, env) if s.value is not None else []
+                self.paths.append((conds, cs, s))
+                return
+            if isinstance(s, ast.Assign) and len(s.targets) == 1 and isinstance(s.targets[0], ast.Name):
+                name = s.targets[0].id
+                cs = self.colset(s.value, env)
+                if cs is not None and not (isinstance(s.value, ast.Call) and self.m.dotted(s.value.func, ) and str(self.m.dotted(s.value.func)).startswith('itertools.')):
+                    env[name] = ('set', cs)
+                    continue
+                cons = self.contributions(s.value, env)
+                if len(cons) == 1 and cons[0].kind != 'unknown' and isinstance(s.value, ast.Call) and str(self.m.dotted(s.value.func)).startswith('itertools.'):
+                    env[name] = ('iter', cons[0])
+                else:
+                    env[name] = ('list', cons)
+                continue
+            if isinstance(s, ast.AugAssign) and isinstance(s.target, ast.Name) and isinstance(s.op, ast.Add) and s.target.id in env and env[s.target.id][0] == 'list':
+                env[s.target.id] = ('list', list(env[s.target.id][1]) + self.contributions(s.value, env))
+                continue
+            if isinstance(s, ast.Expr) and isinstance(s.value, ast.Call) and isinstance(s.value.func, ast.Attribute) and s.value.func.attr in ('extend',) \
+                    and isinstance(s.value.func.value, ast.Name) and s.value.func.value.id in env and env[s.value.func.value.id][0] == 'list':
+                nm = s.value.func.value.id
+                env[nm] = ('list', list(env[nm][1]) + self.contributions(s.value.args[0], env))
+                continue
+            if isinstance(s, ast.Assign) and isinstance(s.targets[0], ast.Attribute):
+                continue   # args.combination_number_upper_bound = MAX_FEATURES_3MR (cap clamp)
+            from ..match import is_noise_stmt
+            if is_noise_stmt(s):
+                continue
+            self.problems.append((s, f'unrecognised statement in the enumeration: {ast.unparse(s)[:100]}'))
+        self.paths.append((conds, [], None))
+
+
+def enumeration(repo):
+    fn = repo.func(CR, 'get_combinations_from_columns')
+    return fn, EnumAnalysis(repo, fn)
+
+
+def path_mode(fn, conds):
+    """classify a path of the enumeration by its branch conditions: ('3mr'|'plain', 'target-only'|'pairwise'|None)"""
+    mode3 = None
+    target = None
+    for test, pol in conds:
+        txt = ast.unparse(test)
+        if "'3mr' in" in txt:
+            mode3 = pol
+        elif 'target_ranking_only' in txt and "'True'" in txt:
+            if isinstance(test, ast.Compare) and isinstance(test.ops[0], ast.Eq):
+                target = pol
+            elif isinstance(test, ast.Compare) and isinstance(test.ops[0], ast.NotEq):
+                target = not pol
+    return ('3mr' if mode3 else 'plain' if mode3 is False else None, 'target-only' if target else 'pairwise' if target is False else None)
